@@ -53,7 +53,7 @@
                                        unchanged and the rejected key and value (for
                                        or_insert_with*: the value the closure just made,
                                        after its one EvCall 2) are destroyed exactly once
-                                       by unwinding: logged w w' (ev_drops (idK E k ++ idV E v)).
+                                       by unwinding: logged w w' (ev_drops (idV E v ++ idK E k)).
    * "and_modify runs its closure only when occupied":
        C11_and_modify_lawful  present -> exactly one EvCall 3, value of that slot
                               becomes g v0, key kept, all other entries untouched;
@@ -189,7 +189,7 @@ Theorem C11_vac_insert_lawful :
           Spec.elems (self w') = Spec.elems (self w) ++ [(k, v)] /\
           i = length (Spec.elems (self w)) /\ len (self w) < cap (self w))
        (fun w' : world K V T =>
-          self w' = self w /\ logged w w' (ev_drops (idK E k ++ idV E v)) /\
+          self w' = self w /\ logged w w' (ev_drops (idV E v ++ idK E k)) /\
           len (self w) = cap (self w)) w.
 Proof. exact (fun K V Q T E debug ck cq HL => vac_insert_lawful E debug ck cq HL). Qed.
 Print Assumptions C11_vac_insert_lawful.
@@ -209,7 +209,7 @@ Theorem C11_or_insert_lawful :
           end)
        (fun w' : world K V T =>
           self w' = self w /\
-          logged w w' (ev_drops (idK E k ++ idV E v)) /\
+          logged w w' (ev_drops (idV E v ++ idK E k)) /\
           find_idx ck (ck k) (Spec.elems (self w)) = None /\ len (self w) = cap (self w)) w.
 Proof. exact (fun K V Q T E debug ck cq HL => or_insert_lawful E debug ck cq HL). Qed.
 Print Assumptions C11_or_insert_lawful.
@@ -232,7 +232,7 @@ Theorem C11_or_insert_with_lawful :
           self w' = self w /\
           (exists (v : V) (s s' : T),
               f s = (Some v, s') /\
-              logged w w' ([EvCall 2] ++ ev_drops (idK E k ++ idV E v))) /\
+              logged w w' ([EvCall 2] ++ ev_drops (idV E v ++ idK E k))) /\
           find_idx ck (ck k) (Spec.elems (self w)) = None /\ len (self w) = cap (self w)) w.
 Proof. exact (fun K V Q T E debug ck cq HL => or_insert_with_lawful E debug ck cq HL). Qed.
 Print Assumptions C11_or_insert_with_lawful.
@@ -255,7 +255,7 @@ Theorem C11_or_insert_with_key_lawful :
           self w' = self w /\
           (exists (v : V) (s s' : T),
               f k s = (Some v, s') /\
-              logged w w' ([EvCall 2] ++ ev_drops (idK E k ++ idV E v))) /\
+              logged w w' ([EvCall 2] ++ ev_drops (idV E v ++ idK E k))) /\
           find_idx ck (ck k) (Spec.elems (self w)) = None /\ len (self w) = cap (self w)) w.
 Proof. exact (fun K V Q T E debug ck cq HL => or_insert_with_key_lawful E debug ck cq HL). Qed.
 Print Assumptions C11_or_insert_with_key_lawful.
@@ -432,7 +432,7 @@ Example C11_example_runs :
   (* full map, absent key: panics, container unchanged, the rejected key (id 90)
      and value (id 91) destroyed once by unwinding *)
   match (e <- entry_of E (k_ 90 9) ;; or_insert E true e (v_ 91 0)) (w_of m3) with
-  | Panic w' => self w' = m3 /\ log w' = [EvDrop 90; EvDrop 91]
+  | Panic w' => self w' = m3 /\ log w' = [EvDrop 91; EvDrop 90]
   | _ => False
   end.
 Proof. vm_compute. repeat split; reflexivity. Qed.
@@ -552,7 +552,7 @@ Theorem C11_or_insert_with_vacant_exact :
           logged w w' [EvCall 2] /\ len (self w) < cap (self w))
        (fun w' : world K V T =>
           self w' = self w /\
-          logged w w' ([EvCall 2] ++ ev_drops (idK E k ++ idV E v)) /\
+          logged w w' ([EvCall 2] ++ ev_drops (idV E v ++ idK E k)) /\
           len (self w) = cap (self w)) w.
 Proof. exact (fun K V Q T E debug ck cq HL => or_insert_with_vacant_exact E debug ck cq HL). Qed.
 Print Assumptions C11_or_insert_with_vacant_exact.
@@ -622,7 +622,7 @@ Theorem C11_or_insert_with_key_vacant_exact :
           logged w w' [EvCall 2] /\ len (self w) < cap (self w))
        (fun w' : world K V T =>
           self w' = self w /\
-          logged w w' ([EvCall 2] ++ ev_drops (idK E k ++ idV E v)) /\
+          logged w w' ([EvCall 2] ++ ev_drops (idV E v ++ idK E k)) /\
           len (self w) = cap (self w)) w.
 Proof. exact (fun K V Q T E debug ck cq HL => or_insert_with_key_vacant_exact E debug ck cq HL). Qed.
 Print Assumptions C11_or_insert_with_key_vacant_exact.
@@ -927,7 +927,7 @@ Theorem C11_and_modify_chain_or_insert :
               Spec.elems (self w') = Spec.elems (self w) ++ [(k, v)] /\ log w' = log w
           end)
        (fun w' : world K V T =>
-          self w' = self w /\ logged w w' (ev_drops (idK E k ++ idV E v)) /\
+          self w' = self w /\ logged w w' (ev_drops (idV E v ++ idK E k)) /\
           find_idx ck (ck k) (Spec.elems (self w)) = None /\ len (self w) = cap (self w)) w.
 Proof. exact (fun K V Q T E debug ck cq HL => and_modify_chain_or_insert E debug ck cq HL). Qed.
 Print Assumptions C11_and_modify_chain_or_insert.
@@ -974,7 +974,7 @@ Theorem C11_chain0_spec :
               len (self w) < cap (self w)
           end)
        (fun w' : world key vobj cstate =>
-          self w' = self w /\ logged w w' [EvDrop (kid k); EvDrop (vid v)] /\
+          self w' = self w /\ logged w w' [EvDrop (vid v); EvDrop (kid k)] /\
           find_idx kcls (kcls k) (Spec.elems (self w)) = None /\ len (self w) = cap (self w)) w.
 Proof. exact chain0_spec. Qed.
 Print Assumptions C11_chain0_spec.
@@ -1000,7 +1000,7 @@ Theorem C11_chain1_spec :
               len (self w) < cap (self w)
           end)
        (fun w' : world key vobj cstate =>
-          self w' = self w /\ logged w w' [EvCall 2; EvDrop (kid k); EvDrop (vid v)] /\
+          self w' = self w /\ logged w w' [EvCall 2; EvDrop (vid v); EvDrop (kid k)] /\
           find_idx kcls (kcls k) (Spec.elems (self w)) = None /\ len (self w) = cap (self w)) w.
 Proof. exact chain1_spec. Qed.
 Print Assumptions C11_chain1_spec.
@@ -1024,7 +1024,7 @@ Theorem C11_chain2_spec :
               len (self w) < cap (self w)
           end)
        (fun w' : world key vobj cstate =>
-          self w' = self w /\ logged w w' [EvCall 2; EvDrop (kid k); EvDrop (vid v)] /\
+          self w' = self w /\ logged w w' [EvCall 2; EvDrop (vid v); EvDrop (kid k)] /\
           find_idx kcls (kcls k) (Spec.elems (self w)) = None /\ len (self w) = cap (self w)) w.
 Proof. exact chain2_spec. Qed.
 Print Assumptions C11_chain2_spec.
@@ -1051,7 +1051,7 @@ Theorem C11_chain3_spec :
               len (self w) < cap (self w)
           end)
        (fun w' : world key vobj cstate =>
-          self w' = self w /\ logged w w' [EvCall 2; EvDrop (kid k); EvDrop (vid dv)] /\
+          self w' = self w /\ logged w w' [EvCall 2; EvDrop (vid dv); EvDrop (kid k)] /\
           find_idx kcls (kcls k) (Spec.elems (self w)) = None /\ len (self w) = cap (self w)) w.
 Proof. exact chain3_spec. Qed.
 Print Assumptions C11_chain3_spec.
@@ -1078,7 +1078,7 @@ Theorem C11_chain4_spec :
               len (self w) < cap (self w)
           end)
        (fun w' : world key vobj cstate =>
-          self w' = self w /\ logged w w' [EvDrop (kid k); EvDrop (vid v)] /\
+          self w' = self w /\ logged w w' [EvDrop (vid v); EvDrop (kid k)] /\
           find_idx kcls (kcls k) (Spec.elems (self w)) = None /\ len (self w) = cap (self w)) w.
 Proof. exact chain4_spec. Qed.
 Print Assumptions C11_chain4_spec.
@@ -1164,7 +1164,7 @@ Theorem C11_chain8_spec :
               len (self w) < cap (self w)
           end)
        (fun w' : world key vobj cstate =>
-          self w' = self w /\ logged w w' [EvDrop (kid k); EvDrop (vid v)] /\
+          self w' = self w /\ logged w w' [EvDrop (vid v); EvDrop (kid k)] /\
           find_idx kcls (kcls k) (Spec.elems (self w)) = None /\ len (self w) = cap (self w)) w.
 Proof. exact chain8_spec. Qed.
 Print Assumptions C11_chain8_spec.
@@ -1236,7 +1236,7 @@ Theorem C11_chain11_spec :
               len (self w) < cap (self w)
           end)
        (fun w' : world key vobj cstate =>
-          self w' = self w /\ logged w w' [EvDrop (kid k); EvDrop (vid v)] /\
+          self w' = self w /\ logged w w' [EvDrop (vid v); EvDrop (kid k)] /\
           find_idx kcls (kcls k) (Spec.elems (self w)) = None /\ len (self w) = cap (self w)) w.
 Proof. exact chain11_spec. Qed.
 Print Assumptions C11_chain11_spec.
@@ -1336,7 +1336,7 @@ Example C11_example_or_insert_with :
   | _ => False
   end /\
   match (e <- entry_of E (k_ 90 9) ;; or_insert_with E true e (mk_val sc0 (v_ 91 0))) (w_of m3) with
-  | Panic w' => self w' = m3 /\ log w' = [EvCall 2; EvDrop 90; EvDrop 91]
+  | Panic w' => self w' = m3 /\ log w' = [EvCall 2; EvDrop 91; EvDrop 90]
   | _ => False
   end /\
   (* a closure that panics (absent key, spare slot): called once, nothing inserted,
@@ -1390,7 +1390,7 @@ Example C11_example_occ_vac :
   | _ => False
   end /\
   match vac_insert E true (k_ 90 9) (v_ 91 0) (w_of m3) with
-  | Panic w' => self w' = m3 /\ log w' = [EvDrop 90; EvDrop 91]
+  | Panic w' => self w' = m3 /\ log w' = [EvDrop 91; EvDrop 90]
   | _ => False
   end.
 Proof. vm_compute. repeat split; reflexivity. Qed.
